@@ -14,6 +14,50 @@ EXPLANATION = ("Decision table of the liveness predicate over (soft-deleted, exp
 ASSUMPTIONS = ["SystemTime ordering/addition behave as documented", "the configured Clock is monotone enough for the caller's purposes"]
 
 
+def closures_rec(F, f):
+    out = []
+    for c in F.closures_of(f):
+        out.append(c)
+        out += closures_rec(F, c)
+    return out
+
+
+def resolve_env(F, g, e):
+    """a closure's captured value expressed in its parent's terms (one level per enclosing closure)"""
+    from core import closure_captures, project
+    for _ in range(3):
+        if g.kind != "Closure" or not mentions(e, lambda s_: s_ == ("env",)):
+            return e
+        cc = closure_captures(F, g.name)
+        if not cc:
+            return e
+        parent, caps = cc
+
+        def sub(x):
+            if not isinstance(x, tuple) or not x:
+                return x
+            if x[0] == "field" and x[1] == ("env",):
+                return caps.get(x[2], x)
+            if x[0] == "param":
+                return ("cparam", g.name, x[1])
+            return tuple(sub(y) if isinstance(y, tuple) else y for y in x)
+        e = sub(e)
+        g = parent
+    return e
+
+
+def loop_carried_from(f, e, src):
+    """e is a loop variable (var/phi) of f one of whose definitions is derived from src"""
+    for s_ in subexprs(e):
+        if s_[0] == "var":
+            o = f.origin_local(s_[1])
+            if mentions(o, lambda z: z == src):
+                return True
+        if s_[0] == "phi" and any(mentions(x, lambda z: z == src) for x in s_[1]):
+            return True
+    return False
+
+
 def run(ctx):
     F = ctx.facts
     L = LiveModel(ctx)
@@ -25,56 +69,14 @@ def run(ctx):
     for an in sorted(L.alive_fns):
         f = F.fn(an)
         ctx.touch(f)
-        rows = []
-        bad = []
-        helper_rows = set()
-        for p in enum_paths(f):
-            atoms = path_atoms(f, p)
-            r = path_return(f, p, atoms)
-            soft = [a for a in atoms if a[0] == "bool" and a[1] == ("field", ("param", 1), L.SOFT)]
-            exp = [a for a in atoms if a[0] == "enum" and a[1] == ("field", ("param", 1), L.EXP)]
-            s = soft[0][2] if soft else None
-            e = exp[0][2] if exp else None
-            rows.append((s, e, fmt(r)))
-            if s is False and e is None and r[0] == "unop" and r[1] == "Not" and r[2][0] == "call" and r[2][1] in L.expired_fns and r[2][2][0] == ("param", 1) and rooted_in_param(r[2][2][1], 2):
-                helper_rows.add(r[2][1])
-                continue
-            if s is True:
-                if not (r[0] == "const" and r[1] == 0):
-                    bad.append("soft-deleted entry reported alive")
-            elif s is False and e == ("None",):
-                if not (r[0] == "const" and r[1] == 1):
-                    bad.append("entry without expiry not alive")
-            elif s is False and e == ("Some",):
-                payload = ("field", ("variant", ("field", ("param", 1), L.EXP), "Some"), "0")
-                ok = (r[0] == "unop" and r[1] == "Not" and r[2][0] == "call" and "Clock::has_passed" in r[2][1]
-                      and rooted_in_param(r[2][2][0], 2) and strip_site(r[2][2][1]) == payload)
-                if not ok:
-                    bad.append("expiring entry: alive must be !clock.has_passed(its expiry), found %s" % fmt(r))
-            else:
-                bad.append("path does not test soft-delete first / expiry (row %s)" % ((s, e),))
+        rows, bad = L.alive_table(f)
         ctx.analysed["paths"] += len(rows)
-        for hn in sorted(helper_rows):
-            h = F.fn(hn)
-            hbad = []
-            hrows = 0
-            for p in enum_paths(h):
-                atoms = path_atoms(h, p)
-                r = path_return(h, p, atoms)
-                exp = [a for a in atoms if a[0] == "enum" and a[1] == ("field", ("param", 1), L.EXP)]
-                hrows += 1
-                if exp and exp[0][2] == ("None",):
-                    if not (r[0] == "const" and r[1] == 0):
-                        hbad.append("no expiry must mean not expired")
-                elif exp and exp[0][2] == ("Some",):
-                    payload = ("field", ("variant", ("field", ("param", 1), L.EXP), "Some"), "0")
-                    if not (r[0] == "call" and "Clock::has_passed" in r[1] and rooted_in_param(r[2][0], 2) and strip_site(r[2][1]) == payload):
-                        hbad.append("expired must be clock.has_passed(its expiry), found %s" % fmt(r))
-                else:
-                    hbad.append("expiry not examined")
-            ctx.check(not hbad and hrows >= 2, "R09.1", "%s|expiry-passed-table" % hn, "expiry helper: false without an expiry, clock.has_passed(expiry) otherwise", h.where(), "; ".join(hbad))
-        ctx.check(not bad and (len(rows) >= 3 or (helper_rows and len(rows) >= 2)), "R09.1", "%s|liveness-table" % an,
-                  "is_alive = false if soft-deleted; true if no expiry; !has_passed(expiry) otherwise (%d rows)" % len(rows), f.where(), "; ".join(bad) or str(rows))
+        need = {(True, False), (False, True)}
+        have = {(r[0], r[3]) for r in rows if r[0] is not None}
+        kinds = {("none" if r[1] == ("None",) else "some") for r in rows if r[0] is False and r[1]}
+        ctx.check(not bad and need <= have and kinds == {"none", "some"}, "R09.1", "%s|liveness-table" % an,
+                  "alive <=> not soft-deleted and (no expiry or !clock.has_passed(that expiry)), on every symbolic path with helpers and combinators inlined (%d rows)" % len(rows),
+                  f.where(), "; ".join(sorted(set(bad))) or str(rows))
     # ---- R09.2 default has_passed strict -----------------------------------------------------------
     hp = [f for n, f in F.fns.items() if n.endswith("Clock::has_passed")]
     ctx.floor("R09.2", "default has_passed", len(hp), 1)
@@ -85,15 +87,42 @@ def run(ctx):
     # ---- R09.3 expiry = clock.now() + ttl ----------------------------------------------------------
     calc = []
     for n, f in F.fns.items():
-        r = f.origin_local(0)
-        if r[0] == "field" and r[1][0] == "variant" and r[1][2] == "Some" and is_call_to(r[1][1], "SystemTime::checked_add"):
-            r = r[1][1]           # Some-payload of now.checked_add(ttl): the non-panicking form
-        if f.rec.get("ret") == "std::time::SystemTime" and r[0] == "call" and ("ops::Add" in r[1] or "checked_add" in r[1]) and any(is_call_to(x, "Clock::now") for x in subexprs(r)):
-            calc.append(f)
-            nowc = [x for x in r[2] if is_call_to(x, "Clock::now")]
-            other = [x for x in r[2] if not is_call_to(x, "Clock::now")]
-            ctx.check(len(nowc) == 1 and len(other) == 1 and other[0][0] == "param" and rooted_in_param(nowc[0][2][0], [i for i in (1, 2) if i != other[0][1]][0]),
-                      "R09.3", "%s|now-plus-ttl" % n, "expiry is computed as the given clock's now() plus the given time-to-live", f.where(), fmt(r))
+        if f.kind == "Closure" or f.rec.get("ret") != "std::time::SystemTime":
+            continue
+        dur = [i for i in range(1, f.argc + 1) if f.locals[i]["ty"].endswith("std::time::Duration")]
+        clk = [i for i in range(1, f.argc + 1) if "Clock" in f.locals[i]["ty"]]
+        body = [f] + closures_rec(F, f)
+        if not dur or not clk or not any(g.calls_to("Clock::now") for g in body):
+            continue
+        calc.append(f)
+        # (a) every time source is the given clock's now(); (b) the deadline is that now plus something made of the
+        # given time-to-live (directly, or an element of an iterator built from it: halving until the sum fits)
+        bad = []
+        adds = 0
+        for g in body:
+            for b, t in g.calls():
+                c = t["callee"]
+                if "SystemTime::now" in c or "UNIX_EPOCH" in c or "Instant::now" in c:
+                    bad.append("reads a time source of its own: %s" % c.split("::")[-1])
+                if "Clock::now" in c:
+                    recv = resolve_env(F, g, g.op_origin(t["args"][0]))
+                    if not rooted_in_param(recv, clk[0]):
+                        bad.append("now() is asked of something else than the given clock: %s" % fmt(recv))
+                if ("ops::Add" in c and "SystemTime" in (t.get("rpath") or "")) or "SystemTime::checked_add" in c:
+                    adds += 1
+                    a0 = resolve_env(F, g, g.op_origin(t["args"][0]))
+                    a1 = resolve_env(F, g, g.op_origin(t["args"][1]))
+                    if not is_call_to(a0, "Clock::now"):
+                        bad.append("the deadline is not based on clock.now(): %s" % fmt(a0))
+                    from_ttl = mentions(a1, lambda s_: s_ == ("param", dur[0]) and g is f) or \
+                        (g is not f and (mentions(a1, lambda s_: s_[0] in ("param", "cparam")) or mentions(a1, lambda s_: s_ == ("param", dur[0])))) or \
+                        mentions(a1, lambda s_: s_[0] in ("var", "phi") and any(mentions(d_, lambda z: z == ("param", dur[0])) for d_ in ([s_] if s_[0] == "phi" else [])))
+                    if not from_ttl and not loop_carried_from(f, a1, ("param", dur[0])):
+                        bad.append("the amount added is not derived from the given time-to-live: %s" % fmt(a1))
+        uses_ttl = any(mentions(g.op_origin(a), lambda s_: s_ == ("param", dur[0])) for g in [f] for b, t in g.calls() for a in t["args"]) or \
+            any(mentions(f.origin_rvalue(st["rv"]), lambda s_: s_ == ("param", dur[0])) for b in f.live_blocks() for st in f.blocks[b]["stmts"] if st["k"] == "assign")
+        ctx.check(not bad and adds == 1 and uses_ttl, "R09.3", "%s|now-plus-ttl" % n,
+                  "expiry is computed as the given clock's now() plus (a value derived from) the given time-to-live; no other time source is read", f.where(), "; ".join(bad) or "adds=%d" % adds)
     ctx.floor("R09.3", "expiry computations", len(calc), 1)
     calc_names = {f.name for f in calc}
     sv_short = L.sv.split("::")[-1]
@@ -136,8 +165,12 @@ def run(ctx):
         return False
     n_clock = 0
     for an in sorted(L.alive_fns):
+        af = F.fn(an)
+        cis = [i for i in range(1, af.argc + 1) if "Clock" in af.locals[i]["ty"]]
+        if not cis:
+            continue        # a wrapper without a clock parameter: the clock is chosen at the call it forwards to
         for g, bb, t in [(g, bb, t) for n, g in F.fns.items() for bb, t in g.calls() if t.get("rpath") == an]:
-            clk = g.op_origin(t["args"][1])
+            clk = g.op_origin(t["args"][cis[0] - 1])
             n_clock += 1
             ok = deep_trace(F, g, clk, is_config_clock)
             ctx.check(ok, "R09.4", "%s|reader-clock-is-config-clock" % g.name, "the clock used to judge liveness on reads is (a clone of) the configured clock", g.where(bb), fmt(clk))
